@@ -1,4 +1,5 @@
 import PugModel.Tpl.Exec
+import PugProofs.C02.IfDoc
 import PugModel.Gen.Tables
 /-!
 # C02 — conditionals, case, each and while select and repeat exactly as pug prescribes
@@ -269,5 +270,63 @@ def expected_loopSkeleton : List (String × String) :=
 /-- **C02 (the model's tie to the code, by shape).** -/
 theorem C02_loop_skeleton : Gen.loopSkeleton_ok = true ∧ Gen.loopSkeleton = expected_loopSkeleton := by
   constructor <;> decide
+
+/-! ## a conditional through the whole pipeline -/
+
+open Pug.JS Pug.Props.C01S Pug.Props.C06S Pug.Props.C02D Pug.Driver in
+/-- **C02 (if / else, end to end through the model of LoadTemplates + Render).** Page data: any JSON object with string / number /
+boolean values. Document: `if e` … `else` … for ANY well-formed scalar test `e` (variables, comparisons, arithmetic, `&&` `||` `!`,
+any nesting) and ANY two static bodies (text with any characters, doctype, attribute-less tags, any nesting). Data conversion,
+transpiler, text merging, trim markers, the template parser's nesting and the executor together print exactly the body JavaScript's
+truth value of the test selects - never both, never the other one - with the white space that directly borders the `if` / `else`
+marker removed from the front of the body's first text (`trimHead`) and nothing else changed; `A`, `B` are the transpiled bodies,
+whose text is the reference serialisation of the two subtrees. -/
+theorem C02_if_end_to_end (o : Std.TreeMap.Raw String Lean.Json) (svs : SEnv) (hd : ScalarData o svs)
+    (hg : ∀ kv ∈ svs, kv.1 ≠ "global") (e : SExpr) (r : SVal) (thn els : List Node)
+    (hw : WF { funcs := engineFuncs ++ [], parserFuncs := engineFuncs ++ [] ++ builtinNames } e) (hdepth : e.depth < 40000)
+    (hv : sEval svs e = some r) (hthn : staticListF 99998 thn = true) (hels : staticListF 99998 els = true) :
+    ∃ A B, Plain A ∧ fragsStr A = serListF 99998 thn ∧ Plain B ∧ fragsStr B = serListF 99998 els ∧
+      (A.length + B.length + 100000 < 100000000 →
+        renderModel [.cond e.toExpr thn (some els)] (.obj o) [] false =
+          okOut (fragsStr (trimHead (mergeTexts (if sToBool r then A else B))))) := by
+  obtain ⟨A, B, _, a2, a3, _, b2, b3, hc⟩ := compileDoc_if
+    { funcs := engineFuncs ++ [], parserFuncs := engineFuncs ++ [] ++ builtinNames } rfl e hw (by omega) thn els hthn hels
+  refine ⟨A, B, a2, a3, b2, b3, fun hlen => ?_⟩
+  have hag := agree_initState o svs hd hg
+  have hout := (initState_scalars o svs hd).2
+  have mA := merge_plain A.length A (Nat.le_refl _) a2
+  have mB := merge_plain B.length B (Nat.le_refl _) b2
+  have lA := merge_length A.length A (Nat.le_refl _)
+  have lB := merge_length B.length B (Nat.le_refl _)
+  have tlA : (trimHead (mergeTexts A)).length = (mergeTexts A).length := by
+    cases mergeTexts A with
+    | nil => rfl
+    | cons f r => cases f <;> rfl
+  have tlB : (trimHead (mergeTexts B)).length = (mergeTexts B).length := by
+    cases mergeTexts B with
+    | nil => rfl
+    | cons f r => cases f <;> rfl
+  obtain ⟨v, hev, rv⟩ := eval_scalar svs e r hv (initState (.obj o)) hag 99999998 (by omega)
+  have hsel := C02_if_selects 99999998 { defs := [] } (tr e) (nodesOf (trimHead (mergeTexts A))) (nodesOf (trimHead (mergeTexts B)))
+    (initState (.obj o)) (initState (.obj o)) v hev
+  rw [truth_rep _ rv] at hsel
+  have wA := walk_nodes { defs := [] } (trimHead (mergeTexts A)) (trimHead_plain mA.1) (initState (.obj o)) 99999998 (by omega)
+  have wB := walk_nodes { defs := [] } (trimHead (mergeTexts B)) (trimHead_plain mB.1) (initState (.obj o)) 99999998 (by omega)
+  have hwalk : walk 99999999 { defs := [] }
+      (TNode.ite (tr e) (nodesOf (trimHead (mergeTexts A))) (nodesOf (trimHead (mergeTexts B)))) (initState (.obj o)) =
+      .ok ((), { initState (.obj o) with
+        out := (initState (.obj o)).out ++ fragsStr (trimHead (mergeTexts (if sToBool r then A else B))) }) := by
+    rw [show (99999999 : Nat) = 99999998 + 1 from rfl, hsel]
+    cases hb : sToBool r <;> simp [wA, wB]
+  have hrun : walkList 100000000 { defs := [] }
+      [TNode.ite (tr e) (nodesOf (trimHead (mergeTexts A))) (nodesOf (trimHead (mergeTexts B)))] (initState (.obj o)) =
+      .ok ((), { initState (.obj o) with
+        out := (initState (.obj o)).out ++ fragsStr (trimHead (mergeTexts (if sToBool r then A else B))) }) := by
+    show walkList (99999999 + 1) _ _ _ = _
+    rw [walkList]
+    simp only [bind, StateT.bind, hwalk, Except.bind]
+    show walkList (99999998 + 1) _ [] _ = _
+    simp [walkList, pure, StateT.pure, Except.pure]
+  simp only [renderModel, hc, StateT.run, hrun, hout, String.empty_append]
 
 end Pug.Props.C02
